@@ -17,7 +17,7 @@ LEVEL_NOTE = ("numpy.unique / average / bincount enter as their contracts; the s
               "first quantity). 'Input arrays unmodified' is a frame condition checked by the harness only.")
 TECHNIQUE = "Lean 4 proof (vectorised = row-wise for all trees/batches) + correspondence against a transcription of _numpy + oracle"
 LEAN_MODULE = "Hg.Props.C03"
-THEOREMS = ["Hg.C03.fillNp_eq_rows", "Hg.C03.fillNp_split", "Hg.C03.sum_nan_np_differs", "Hg.C03.count_transform_np_eq_rows",
+THEOREMS = ["Hg.C03.fillNp_eq_rows", "Hg.C03.fillNp_eq_denote", "Hg.C03.fillNp_split", "Hg.C03.sum_nan_np_differs", "Hg.C03.count_transform_np_eq_rows",
             "Hg.C03.count_transform_np_scalar_eq_rows"]
 CASES = {"quick": 300, "thorough": 10000}
 RULE = ("random tree with at least one quantity-bearing node, a column batch of 0..12 rows over the tree's critical values (NaN, "
